@@ -294,7 +294,65 @@ def r5_dimensions(repo, rep):
   rep.floor('comparisons with known dimensions', n_known, 15)
 
 
+ABS_GRID = ('round', 'math.floor', 'math.ceil', 'math.trunc', 'np.round', 'np.around', 'np.floor', 'np.ceil', 'np.trunc', 'np.rint', 'numpy.round', 'numpy.floor',
+            'numpy.ceil', 'numpy.trunc', 'numpy.rint', 'numpy.around')
+
+
+def r6_stored_parameters(repo, rep):
+  """The design parameters are stored as given (integer-valued sizes as ints): a validated amount that is rounded to a
+  fixed grid before it is stored (`math.floor(x * 100) / 100`, `round(x, 2)`) makes every later decision depend on the
+  unit the amounts are expressed in -- scaling responses and budgets by c no longer scales the design."""
+  from mmsa.types import FuncCtx
+  cls = repo.cls('tbrmmdesignparameters.TBRMMDesignParameters')
+  n = 0
+  for f in cls.all_functions():
+    ctx = FuncCtx.of(f)
+    selfn = f.params[0] if f.params else 'self'
+    for node in ctx.g.nodes:
+      if node.kind != 'stmt':
+        continue
+      vals = []
+      st = node.ast
+      if isinstance(st, ast.Assign) and any(isinstance(t_, ast.Attribute) and isinstance(t_.value, ast.Name) and t_.value.id == selfn for t_ in st.targets):
+        vals.append(st.value)
+      for c_ in au.calls_in(st):
+        if isinstance(c_.func, ast.Name) and c_.func.id == 'setattr' and len(c_.args) == 3 and isinstance(c_.args[0], ast.Name) and c_.args[0].id == selfn:
+          vals.append(c_.args[2])
+      for v in vals:
+        n += 1
+        vx = ctx.rd.expand(node, v, depth=8, keep=tuple(f.params))[0]
+        scope = [vx]
+        # every definition that may flow into the stored value (names with several reaching definitions are not expanded)
+        seen_, work_ = set(), [(node, vx)]
+        while work_ and len(seen_) < 200:
+          at_, e_ = work_.pop()
+          for nm_ in {x_.id for x_ in ast.walk(e_) if isinstance(x_, ast.Name) and isinstance(x_.ctx, ast.Load)}:
+            for d_ in ctx.rd.defs_at(at_, nm_):
+              if id(d_) in seen_ or d_.value is None or d_.how not in ('assign', 'unpack', 'augassign'):
+                continue
+              seen_.add(id(d_))
+              scope.append(d_.value)
+              work_.append((d_.node, d_.value))
+        # a helper of the class that computes the stored form: its returns are part of the stored value
+        for c_ in ast.walk(vx):
+          if isinstance(c_, ast.Call) and isinstance(c_.func, ast.Attribute) and isinstance(c_.func.value, ast.Name) and c_.func.value.id in (selfn, cls.name) \
+              and c_.func.attr in cls.methods and cls.methods[c_.func.attr] is not f:
+            h_ = cls.methods[c_.func.attr]
+            hctx = FuncCtx.of(h_)
+            for rn_ in hctx.g.nodes:
+              if rn_.kind == 'return' and rn_.ast.value is not None:
+                scope.append(hctx.rd.expand(rn_, rn_.ast.value, depth=8, keep=tuple(h_.params))[0])
+        grid = [c_ for e_ in scope for c_ in ast.walk(e_) if isinstance(c_, ast.Call) and norm(c_.func) in ABS_GRID] \
+            + [b_ for e_ in scope for b_ in ast.walk(e_) if isinstance(b_, ast.BinOp) and isinstance(b_.op, (ast.FloorDiv, ast.Mod))]
+        rep.check(not grid, 'R6/stored-parameters', '%s stores the validated value (sizes as ints), not a value rounded to a fixed grid' % f.name, f.qualname,
+                  norm(st)[:100],
+                  '%s stores a parameter after rounding it on an absolute grid (`%s`): the stored range depends on the unit of the amounts, so designs are not invariant under a common rescaling of responses and budgets'
+                  % (f.name, norm(grid[0])[:70] if grid else ''), f.loc(st))
+  rep.floor('stores of validated parameters', n, 2)
+
+
 def run(repo, rep, tier):
+  r6_stored_parameters(repo, rep)
   r1_r2_ingestion(repo, rep)
   r3_order_taint(repo, rep)
   r4_dates(repo, rep)
